@@ -6,6 +6,7 @@ import re
 import c06_common as tf
 import lib
 import norm_common as nc
+import normwhole as nw
 
 ID = "C06"
 LEAN_MODULE = "UralModel.Props.C06"
@@ -33,7 +34,19 @@ THEOREMS = [
     "Ural.Props.C06.ccLaws_isCountry",
     "Ural.Props.C06.accLaws_py",
     "Ural.Props.C06.walkLaws_py",
+    # the parser inside the model (Model/FingerprintUrl.lean, Props/C06Whole.lean)
+    "Ural.Fingerprint.fingerprintUrlString_eq",
+    "Ural.Fingerprint.fingerprintUrlStringSplit_eq",
+    "Ural.NormBridge.parse_str",
+    "Ural.NormBridge.normalizeUrlSplit_grammar",
+    "Ural.Props.C06.fp_split_grammar",
+    "Ural.Props.C06.fp_case_string",
+    "Ural.Props.C06.fp_port_string",
+    "Ural.Props.C06.fp_lang_label_string_partial",
+    "Ural.Props.C06.fp_gl_hl_string",
+    "Ural.Props.C06.fp_shape_whole",
 ]
+EXTRA_IMPORTS = ["UralModel.Props.C06Whole"]
 TABLE_OBLIGATIONS = [
     "Ural.Props.C06.langQueryKeys_has",
     "Ural.Props.C06.lang_keys_in_no_combo",
@@ -75,8 +88,11 @@ TRUSTED = [
     "Lean kernel; axioms of every listed theorem within {propext, Classical.choice, Quot.sound} (audited)",
     "the hand-written model (Model/Normalize.lean, Model/Fingerprint.lean, Model/C06Netloc.lean) is the code: tied by differential "
     "execution of both spellings of every case, and by regenerated tables (ISO set, LANG_QUERY_KEYS, combo tables, regexes)",
-    "urlsplit and the SplitResult accessors on the *input* are CPython (the harness ships the Parsed record): how the parser maps "
-    "'host:port', 'label.host', '...&gl=x&...' to components is not proved (oracle + correspondence + c06_common.applies)",
+    "urlsplit and the SplitResult accessors on the *input*: component-level lines ship CPython's Parsed record; the whole-function "
+    "line `fingerprint_whole` (every case inside the parser model's domain; the others are counted whole:outside-model:*) runs the "
+    "model's own parser (Model/FingerprintUrl.lean) on the string. How the MODELLED parser maps 'host:port', 'label.host', "
+    "'...&gl=x&...' to components is proved for the grammar class of Lemmas/NormBridge.lean (Props/C06Whole.lean); that the hand "
+    "parser is CPython's is compared, not proved (oracle + correspondence + c06_common.applies)",
     "the accessors on the netloc normalize_url assembled, and safe_urlsplit(host).hostname, are hand models of CPython 3.12.1 "
     "(pyNetlocAcc, pyWalkHost) for which AccLaws / WalkLaws are proved; _checknetloc (NFKC of a non-ASCII netloc) is not modelled",
     "attempt_to_decode_idna is a parameter (puny), arbitrary in every theorem; the platform_aware branch is an abstract string "
@@ -93,8 +109,11 @@ UNPROVED = (
     "fp_lang_label_partial: side conditions hamp (rest starts with 'amp-'), hsingle (rest starts with a second language label), hdf "
     "(per-domain filter chosen alike) - each excluded region really differs (witness examples, fullLangLabel_fails). "
     "fp_suffix_swap_partial: the suffix is judged after the language label is stripped and hdf - excluded regions really differ "
-    "(KF-C06-2, KF-C06-3, fullSuffixSwap_fails). Port / label / item / suffix theorems are about Parsed records: the bridging from "
-    "the string transformation to the component transformation is CPython, and under platform_aware=True the commutation of T with "
+    "(KF-C06-2, KF-C06-3, fullSuffixSwap_fails). Port / label / item / suffix theorems of Props/C06.lean are about Parsed records; "
+    "Props/C06Whole.lean states case (every string), port, language label (partial, same side conditions), gl/hl and the shape "
+    "clause on STRINGS for the whole-string model fingerprintUrlString with the modelled parser, for every u such that the "
+    "cleaned, resolved form of u.lower() is in the grammar class NormBridge.UrlG.wf (host name or bracketed IP literal); the "
+    "suffix swap stays component-level. That the modelled parser is CPython's is compared on every run, not proved; under platform_aware=True the commutation of T with "
     "the facebook/youtube rewriting is explored by the oracle, not proved (KF-C06-4: it reads the string before unescaping). Escaped capitals: since e39f899 normalize_url(lowercase="
     "True) folds the case right after unescaping; the equation fp('/%41') = fp('/a') is covered by the oracle (C04 family) and by "
     "fp_lower_closed (result closed under lower), not by a general theorem."
@@ -380,6 +399,8 @@ def _lines(x, ss, pa):
         out.append({"f": "c06_acc", "netloc": netloc})
     for host in line["walk"]:
         out.append({"f": "c06_walk", "host": host})
+    # the whole function on the string, the parser being the model's own (nothing shipped)
+    out.extend(nw.fp_ops(x, ss, pa))
     return out
 
 
@@ -404,6 +425,7 @@ def impl(case):
             out.append(line["acc"][netloc])
         for host in line["walk"]:
             out.append(line["walk"][host])
+        out.extend(nw.fp_impl(x, case["ss"], case["pa"]))
     return out
 
 
@@ -654,4 +676,5 @@ def classify(case):
     elif k == "swap":
         labs.append("swap:%d->%d labels" % (T[1].count(".") + 1, T[2].count(".") + 1))
     labs.append("ss=%d,pa=%d" % (case["ss"], case["pa"]))
+    labs.append(nw.label(case["u"], {"platform_aware": case["pa"]}, lower=True))
     return labs
